@@ -619,6 +619,11 @@ impl BinArchive {
         self.text = new_text;
         self.labels = new_labels;
         self.pointers = new_pointers;
+        for addresses in self.cstrings.values_mut() {
+            for cell in addresses.iter_mut() {
+                *cell = adjust_pointer(*cell, address, amount_in_bytes, false);
+            }
+        }
         Ok(())
     }
 
@@ -637,6 +642,14 @@ impl BinArchive {
         self.text = new_text;
         self.labels = new_labels;
         self.pointers = new_pointers;
+        let range = address..(address + amount_in_bytes);
+        for addresses in self.cstrings.values_mut() {
+            addresses.retain(|cell| !range.contains(cell));
+            for cell in addresses.iter_mut() {
+                *cell = adjust_pointer(*cell, address, amount_in_bytes, true);
+            }
+        }
+        self.cstrings.retain(|_, addresses| !addresses.is_empty());
         Ok(())
     }
 
